@@ -58,6 +58,79 @@ def run(ctx):
     if inst == 0:
         chk.violation("R11.1", "no-install", "the callback's result is never installed as a node", loc(b["span"]))
 
+    # ---- R11.4 what a node becomes, per kind (general trip of the loop over the nodes)
+    chk.rule("R11.4", "node transfer: literal untouched; variable without replacement untouched; variable with replacement := Expr(the whole replacement); nested expression := Expr(subs(child))")
+    from analysis import loops, rel
+    from analysis.interp import App, Variant
+
+    class PT(Policy):
+        loop_mode = "widen"
+        max_depth = 3
+
+        def inline(self, fn, args, interp, path):
+            return False
+
+        def inline_closure(self, *a):
+            return False
+    allp = Interp(fb, PT()).run(b, [Sym("self_"), Sym("sub")])
+    seen4 = {"Var+Some": 0, "Var+None": 0, "Expr": 0, "Num": 0}
+    ok4 = all(p.status in ("return", "loop-pruned", "unreachable") for p in allp)
+    if not ok4:
+        chk.unrecognised("R11.4", "shape", "subs: %s" % [(p.status, p.note) for p in allp if p.status not in ("return", "loop-pruned", "unreachable")][:2], loc(b["span"]))
+    for p in allp:
+        for t in loops.trips(p, b["path"], 0):
+            if not (t.general and t.post is not None):
+                continue
+            item = None
+            kind = None
+            cb_lab = None
+            for d in t.decisions:
+                c = rel.canon(d[1])
+                if isinstance(c, App) and c.fn == "discr":
+                    x = c.args[0]
+                    s = rel.cstr(x)
+                    if re.match(r"^\.0\(as:Some\(std::iter::Iterator::next\(", s) and kind is None and d[2] in ("Var", "Expr", "Num", "otherwise"):
+                        item, kind = x, d[2]
+                    elif "FnMut::call_mut(" in s and s.startswith("std::ops::FnMut::call_mut("):
+                        cb_lab = d[2]
+            if item is None:
+                continue
+            writes = [e for e in t.events if e[0] == "write_opaque" and rel.canon(e[1]).key() == item.key()]
+            if kind == "Var" and cb_lab == "Some":
+                seen4["Var+Some"] += 1
+                good = len(writes) == 1
+                if good:
+                    v = rel.canon(writes[0][3])
+                    good = isinstance(v, Variant) and v.variant == "Expr" and re.match(
+                        r"^\.0\(as:Some\(std::ops::FnMut::call_mut\(.*, \(\.1\(\.0\(as:Var\(%s\)\)\)\)\)\)\)$" % re.escape(rel.cstr(item)), rel.cstr(v.fields.get("0"))) is not None
+                if not good and ok4:
+                    ok4 = False
+                    chk.violation("R11.4", "replacement-node", "a replaced variable node becomes %s, expected Expr(<the replacement returned for this variable's name>): a shortcut loses part of the replacement (e.g. its unary operators)" % [
+                        rel.cstr(w[3])[:140] for w in writes], loc(b["span"]))
+            elif kind == "Var":
+                seen4["Var+None"] += 1
+                if writes and ok4:
+                    ok4 = False
+                    chk.violation("R11.4", "untouched-variable", "a variable without replacement is modified: %s" % rel.cstr(writes[0][3])[:120], loc(b["span"]))
+            elif kind == "Expr":
+                seen4["Expr"] += 1
+                good = len(writes) == 1
+                if good:
+                    v = rel.canon(writes[0][3])
+                    good = isinstance(v, Variant) and v.variant == "Expr" and rel.cstr(v.fields.get("0")).startswith(b["path"] + "(std::mem::take(") and rel.cstr(item) in rel.cstr(v.fields.get("0"))
+                if not good and ok4:
+                    ok4 = False
+                    chk.violation("R11.4", "nested-node", "a nested expression node becomes %s, expected Expr(subs(<that child>))" % [rel.cstr(w[3])[:140] for w in writes], loc(b["span"]))
+            else:
+                seen4["Num"] += 1
+                if writes and ok4:
+                    ok4 = False
+                    chk.violation("R11.4", "literal-node", "a literal node is modified by subs", loc(b["span"]))
+    if ok4 and all(seen4.values()):
+        chk.ok("R11.4", "node transfer per kind", str(seen4), loc(b["span"]))
+    elif ok4:
+        chk.unrecognised("R11.4", "trips", "node kinds seen in the loop over the nodes: %s" % seen4, loc(b["span"]))
+
     # ---- R11.2
     eng = typestate.SortedNames(fb)
     rv = [t for _, t in mir.calls(b) if (mir.callee_path(t) or "").endswith("::reset_vars")]
